@@ -353,3 +353,76 @@ def getter(pid):
         res.floor("constructor fields + accessors", n, ctx.table("floors").get("getter_sites", 0))
         return res
     return run
+
+
+def closurestore(pid):
+    """R-CLOSURESTORE: the closures handed to with_dir_entry_mut / with_root_dir_entry_mut update single fields of an
+    existing entry.  (a) None of them replaces the whole entry (`*entry = ..` resets every field it does not mention:
+    CLSID, state bits, times, links).  (b) Outside the API-level setters, the values they store into start_sector /
+    stream_len are the operation's computed results, never constants: an entry parked at 'no chain, length 0' in
+    the middle of an operation is what a retry after a failure then takes for the truth."""
+    def run(ctx):
+        res = RuleResult("R-CLOSURESTORE(%s)" % pid, "closures passed to with_(root_)dir_entry_mut store single fields only, and below the API layer never store a constant as start sector or length")
+        n = 0
+        for f in ctx.fx.fns.values():
+            for c in ctx.cg.calls[f.path]:
+                if c.kind != "call" or not re.search(r"::with_(root_)?dir_entry_mut$", c.name):
+                    continue
+                for g in c.all_targets():
+                    if g.kind != "closure":
+                        continue
+                    n += 1
+                    pr = Prov(g)
+                    problems = []
+                    for bb, blk in enumerate(g.blocks):
+                        if blk["cleanup"]:
+                            continue
+                        for i, st in enumerate(blk["stmts"]):
+                            if st["s"] != "assign":
+                                continue
+                            proj = st["place"]["proj"]
+                            # the closure's entry parameter is local 2 (local 1 is the closure environment)
+                            if st["place"]["local"] == 2 and [e["p"] for e in proj] == ["deref"]:
+                                problems.append(("whole-entry-store", "replaces the whole entry with %s: every field the closure does not set again (CLSID, state bits, times, links) is reset" % pr._def((bb, i, st), 0, ())[:60], st))
+                            elif st["place"]["local"] == 2 and proj and proj[-1].get("p") == "field" and proj[-1].get("name") in ("start_sector", "stream_len") and f.path.startswith("internal::stream::"):
+                                val = pr._def((bb, i, st), 0, ())
+                                if re.match(r"^const:", val):
+                                    problems.append(("constant-" + proj[-1]["name"], "stores the constant %s as %s in the middle of a stream operation: until the operation's real result is stored the entry claims something that is not so, and a failure in between leaves that claim behind for the retry" % (val, proj[-1]["name"]), st))
+                    key = "R-CLOSURESTORE/%s" % f.path
+                    if problems:
+                        for (k, msg, st) in problems[:2]:
+                            res.fail(Finding(res.rule, key + "/" + k, "a closure passed to %s from %s %s" % (c.name.split("::")[-1], f.path.split("::")[-1], msg), f, st["span"]))
+                    else:
+                        res.ok({"function": f.path, "closure": g.path.split("::")[-1], "call": c.name.split("::")[-1]}, nontrivial=True)
+        res.floor("entry-updating closures", n, ctx.table("floors").get("closurestore_sites", 0))
+        return res
+    return run
+
+
+def fieldown(pid):
+    """R-FIELDOWN: which code may write an existing entry's start sector and length.  The two fields say which chain
+    holds the stream and how much of it counts (and, by the length, which KIND of chain it is); they change together
+    with the chain itself, and the chain changes only in the stream layer (write_data_to_stream, resize_stream) and,
+    for the root entry's mini stream, in the mini allocator.  A store anywhere else - the API layer 'truncating in
+    place', the directory layer resetting an entry - changes what the entry claims without the chain following."""
+    def run(ctx):
+        res = RuleResult("R-FIELDOWN(%s)" % pid, "DirEntry.start_sector / DirEntry.stream_len of a table entry are stored only by the chain-owning functions listed in rules/fieldown.json")
+        tbl = ctx.table("fieldown")
+        owners = tbl.get("owners", [])
+        n = 0
+        for f in ctx.fx.fns.values():
+            stores = _entry_field_stores(f, ("start_sector", "stream_len"))
+            if not stores:
+                continue
+            home = f.parent if f.kind == "closure" and getattr(f, "parent", None) else f.path
+            while home in ctx.fx.fns and ctx.fx.fns[home].kind == "closure" and ctx.fx.fns[home].parent:
+                home = ctx.fx.fns[home].parent
+            for (node, fld, st) in stores:
+                n += 1
+                if any(re.search(o, home) for o in owners):
+                    res.ok({"function": home, "field": fld, "line": st["span"]["line"]})
+                else:
+                    res.fail(Finding(res.rule, "R-FIELDOWN/%s/%s" % (home, fld), "DirEntry.%s of a table entry is stored in %s, outside the functions that own the stream's chain (%s): the entry's claim about its chain changes without the chain being released, moved or re-typed with it - by the length the next user picks the mini or the regular table for the unchanged start sector" % (fld, home.split("::")[-1], "the stream layer internal::stream and the mini allocator"), f, st["span"]))
+        res.floor("stores to start_sector / stream_len", n, ctx.table("floors").get("fieldown_sites", 0))
+        return res
+    return run
